@@ -59,8 +59,9 @@ VARIABLES
 implVars == <<tosend, queue, cur, cflush, tflush, inflight, wrapped, refc, rerr, hung, stopping>>
 vars == <<implVars, obsVars>>
 
-NoBatch == [items |-> <<>>, dones |-> <<>>, none |-> TRUE]
-B(items, ds) == [items |-> items, dones |-> ds, none |-> FALSE]
+\* riders (ghost): requests whose callback is attached to the batch although it holds none of their items
+NoBatch == [items |-> <<>>, dones |-> <<>>, none |-> TRUE, riders |-> {}]
+B(items, ds) == [items |-> items, dones |-> ds, none |-> FALSE, riders |-> {}]
 
 Strip(s)  == [i \in DOMAIN s |-> [id |-> s[i].id, ctx |-> s[i].ctx]]
 SizeOf(s) == SizeOfP(s, Sizer)
@@ -121,7 +122,9 @@ Consume ==
                        THEN LET keepLast == SizeOf(lst[n]) < MinSize IN
                             /\ cur' = IF keepLast THEN B(lst[n], <<r>>) ELSE NoBatch
                             /\ cflush' = [i \in 1..(IF keepLast THEN n - 1 ELSE n) |-> B(lst[i], <<r>>)]
-                       ELSE LET first      == B(lst[1], IF inFirst THEN Append(cur.dones, r) ELSE cur.dones)
+                       ELSE LET grew       == n = 1 \/ Len(lst[1]) > Len(cur.items)
+                                first      == [B(lst[1], IF inFirst THEN Append(cur.dones, r) ELSE cur.dones)
+                                                 EXCEPT !.riders = IF inFirst /\ ~grew THEN cur.riders \cup {r} ELSE cur.riders]
                                 flushFirst == n > 1 \/ SizeOf(lst[1]) >= MinSize
                                 rest       == SubSeq(lst, 2, n)
                                 keepLast   == rest # <<>> /\ SizeOf(rest[Len(rest)]) < MinSize
@@ -137,7 +140,7 @@ FlushStart(who) ==
   /\ LET lst == IF who = "consumer" THEN cflush ELSE tflush IN
        /\ lst # <<>>
        /\ batches' = Append(batches, [items |-> Strip(Head(lst).items), reqs |-> {}, size |-> SizeOf(Head(lst).items),
-                                      state |-> "open", ok |-> TRUE])
+                                      state |-> "open", ok |-> TRUE, riders |-> Head(lst).riders])
        /\ inflight' = <<[k |-> Len(batches) + 1, dones |-> Head(lst).dones]>>
        /\ IF who = "consumer" THEN cflush' = Tail(cflush) /\ UNCHANGED tflush
                               ELSE tflush' = Tail(tflush) /\ UNCHANGED cflush
@@ -192,4 +195,16 @@ ConservedAtEnd == Quiescent => Conserved
 
 Property == /\ Conservation /\ ConservedAtEnd /\ Identity /\ SizeBound(MaxSize) /\ Terminates
             /\ DoneOnce /\ DoneAfterParts /\ DoneErrIff
+
+(* Open known finding C04-done-first-part (the tree attaches unconditionally, AttachFirst = "always"):
+   a request is reported failed because a failed batch carried its callback without holding any of
+   its items.  The model keeps describing what the code does; the invariant is checked in the form
+   Inv \/ KnownPredicate: a false "iff" verdict is tolerated exactly when it is an error report that
+   such a batch explains.  Every other way of violating DoneErrIff still fails the run. *)
+KnownRider(r, i) == /\ AttachFirst = "always"
+                    /\ dones[r][i].err
+                    /\ \E k \in DOMAIN batches : Failed(batches, k) /\ r \in batches[k].riders
+DoneErrIffOrKnown == \A r \in DOMAIN dones : \A i \in DOMAIN dones[r] : dones[r][i].iff \/ KnownRider(r, i)
+PropertyKnown == /\ Conservation /\ ConservedAtEnd /\ Identity /\ SizeBound(MaxSize) /\ Terminates
+                 /\ DoneOnce /\ DoneAfterParts /\ DoneErrIffOrKnown
 =============================================================================
